@@ -194,7 +194,10 @@ func (c *connection) onProcess(onConnect OnConnect, onRequest OnRequest) (proces
 			if c.IsActive() {
 				c.Close()
 			} else {
-				c.closeCallback(false, false)
+				// The lock has just been released, so a concurrent Close may already be
+				// running the callbacks: take it again (it is never released once the
+				// callbacks ran). If the user closed it, nobody has detached it yet.
+				c.closeCallback(true, c.isCloseBy(user))
 			}
 		}()
 		// trigger onConnect first
